@@ -123,7 +123,13 @@ def _parse_field_values(field_values: FieldValues) -> version.V1VersionInfo:
     us_week : typ.Optional[int]
 
     if year and month and dom:
-        date     = dt.date(year, month, dom)
+        try:
+            date = dt.date(year, month, dom)
+        except ValueError as ex:
+            # e.g. day is out of range for month (February 30th)
+            err_msg = f"Invalid date {year}-{month}-{dom}: {ex}"
+            raise version.PatternError(err_msg)
+
         doy      = int(date.strftime("%j"), base=10)
         iso_week = int(date.strftime("%W"), base=10)
         us_week  = int(date.strftime("%U"), base=10)
